@@ -53,6 +53,8 @@ func c06Alphabet() (syms []c06Sym) {
 		c06Sym{s: srule{false, c06Pat, []string{"important", "badfilter"}}},
 		c06Sym{s: srule{true, c06Pat, []string{"badfilter"}}},
 		c06Sym{s: srule{false, c06Pat, []string{"domain=src.org", "badfilter"}}},
+		c06Sym{s: srule{false, c06Pat, []string{"dnsrewrite", "badfilter"}}}, // twin of the value-less rewrite rule only
+		c06Sym{s: srule{true, c06Pat, []string{"dnsrewrite", "badfilter"}}},
 		c06Sym{s: srule{true, c06Pat, []string{"stealth"}}},
 		c06Sym{s: srule{true, ".com^", []string{"important"}}},    // short pattern: sequential table, found last
 		c06Sym{s: srule{false, ".com^", []string{"important"}}},   // likewise, blocking
